@@ -8,11 +8,11 @@ SPEC = {
     "requires": "From AG Require Import DLCache.",
     "def_type": "unit",
     "streams": [
-        {"kind": "CASE", "type": "(kind * list (op * obs))", "eval": "check_case", "per_shard": 40},
-        {"kind": "CFG", "type": "(kind * list (op * obs))", "eval": "check_cfg", "per_shard": 40},
+        {"kind": "CASE", "type": "(kind * list (op * obs))", "eval": "check_case", "per_shard": 25},
+        {"kind": "CFG", "type": "(kind * list (op * obs))", "eval": "check_cfg", "per_shard": 25},
     ],
     "classes": {1: "enable-cache-before-first-use-panics"},
-    "n_quick": 1000, "n_thorough": 40000,
+    "n_quick": 700, "n_thorough": 40000,
     "level": "proof",
     "what_violation": "a cache operation panics / a load does not return the cached-or-loader value the reference cache prescribes",
     "rule": ("operation histories (1-40 operations: load_many with duplicate/empty key lists and loader answers that omit keys, "
